@@ -8,7 +8,7 @@ git -C $WT checkout -q -- onsager
 git -C $WT checkout -q --detach $(git -C /repo rev-parse HEAD)
 echo "== $ID patch: $(grep -c '^[+-][^+-]' seeded/$ID/patch.diff) changed lines in $(grep -c '^diff' seeded/$ID/patch.diff) file(s)"
 (cd $WT && PYTHONPATH=$WT timeout 1800 /venv/bin/python -W ignore demo.py >/tmp/mut/$ID.demo_without.log 2>&1; echo "demo WITHOUT change: exit $?")
-git -C $WT apply seeded/$ID/patch.diff || { echo "PATCH DOES NOT APPLY"; exit 1; }
+git -C $WT apply /verif/seeded/$ID/patch.diff || { echo "PATCH DOES NOT APPLY"; exit 1; }
 (cd $WT && PYTHONPATH=$WT timeout 1800 /venv/bin/python -W ignore demo.py >/tmp/mut/$ID.demo_with.log 2>&1; echo "demo WITH change: exit $?")
 if [ -n "$3" ]; then (cd $WT && /venv/bin/python -m pytest -q -p no:cacheprovider --timeout=900 $3 2>&1 | tail -1); fi
 for c in $2; do
